@@ -776,6 +776,64 @@ def rule_pure(ctx):
     return r
 
 
+def rule_preproc(ctx):
+    """Single-term preprocessing steps are registered lazily, as a side effect of
+    computing leaf legs.  Whoever reads ``tree.preprocessing`` to build an executable
+    contraction must have (eagerly) evaluated the per-node recipes first."""
+    r = RuleResult("C02-PREPROC", "preprocessing is read only after the recipes are computed", 1)
+    recipe = {"get_einsum_eq", "get_tensordot_axes", "get_tensordot_perm", "get_inds",
+              "get_can_dot", "get_legs"}
+    scope = [ctx.p.func(C.CONTRACT, "extract_contractions")]
+    if ctx.tier == "thorough":
+        scope += [f for f in ctx.p.all_funcs() if f not in scope]
+    for f in scope:
+        reads = [n for n in walk_local(f.node) if isinstance(n, ast.Attribute)
+                 and n.attr == "preprocessing" and isinstance(n.ctx, ast.Load)
+                 and not (isinstance(f.module.parents.get(n), ast.Attribute))]
+        if not reads or f.cls is not None and f.name in (
+                "has_preprocessing", "set_state_from", "_remove_node", "compute_leaf_legs",
+                "print_contractions", "__init__"):
+            continue
+        if f.name != "extract_contractions" and f.cls is None and \
+                not any(isinstance(c, ast.Call) and isinstance(c.func, ast.Attribute)
+                        and c.func.attr in recipe for c in walk_local(f.node)):
+            continue
+        fl = ctx.flow(f)
+        eager = []
+        for n, call in fl.calls():
+            if isinstance(call.func, ast.Attribute) and call.func.attr in recipe:
+                # evaluated at this CFG node only if consumed eagerly there
+                par = f.module.parents.get(call)
+                lazy = False
+                cur = call
+                while cur is not None and cur is not n.ast:
+                    if isinstance(cur, ast.GeneratorExp):
+                        user = f.module.parents.get(cur)
+                        if not (isinstance(user, ast.Call) and (
+                                (isinstance(user.func, ast.Attribute) and user.func.attr in
+                                 ("extend",)) or dotted(user.func) in ("list", "tuple", "sorted"))):
+                            lazy = True
+                    cur = f.module.parents.get(cur)
+                if not lazy:
+                    eager.append(n.id)
+            if isinstance(call.func, ast.Attribute) and call.func.attr == "has_preprocessing":
+                eager.append(n.id)
+        key = ctx.key(f, "C02-PREPROC")
+        early = None
+        for rd in reads:
+            cn = fl.cfg.containing(rd, f.module.parents)
+            if cn is None or not any(fl.cfg.dominates(e, cn.id) and e != cn.id for e in eager):
+                early = rd
+        if early is None:
+            r.ok(key, C.loc(f, reads[0]), f"{len(reads)} read(s), all after the recipes of every "
+                 "node were evaluated")
+        else:
+            r.violation(key, C.loc(f, early), "tree.preprocessing is read before the per-node "
+                        "recipes (which register the preprocessing steps lazily) have been "
+                        "evaluated: on a fresh tree single-term simplifications are skipped")
+    return r
+
+
 def rule_copy(ctx):
     """Shared with C04-COPY: copying is one of the transformations of C02."""
     from .c04 import rule_copy as src
@@ -786,4 +844,4 @@ def rule_copy(ctx):
 
 
 RULES = [rule_keys, rule_deps, rule_lists, rule_closure, rule_root, rule_cores, rule_node,
-         rule_presurv, rule_pure, rule_copy]
+         rule_presurv, rule_pure, rule_copy, rule_preproc]
